@@ -376,6 +376,7 @@ def _gen_load(rng, fmt):
     return {"how": how,
             "explicit": rng.random() < 0.5,
             "newline": rng.choice([None, None, "\n", ""]),
+            "stream_name": rng.choice(["str", "str", "str", "int", "none"]),
             "chunk": rng.choice([None, None, 1, 2, 3, 7]),
             "as_dag": rng.random() < 0.3}
 
@@ -532,6 +533,9 @@ def _load(data, case, fs, ctx, gtype, plan_extra=None):
         plan.update(plan_extra)
     name = "in." + fmt if not ld["explicit"] else \
         "in." + ("dat" if fmt != "dat" else "x")
+    # (the name of an open file is a number for os.fdopen, pipes and
+    # tempfile.TemporaryFile, None for a SpooledTemporaryFile)
+    sname = {"int": 3, "none": None}.get(ld.get("stream_name"), name)
     ffmt = fmt if ld["explicit"] else "autodetect"
     klass = {"simple": Graph, "digraph": DirectedGraph, "dag": DirectedGraph,
              "bipartite": BipartiteGraph}[gtype]
@@ -569,14 +573,14 @@ def _load(data, case, fs, ctx, gtype, plan_extra=None):
             ctx.fault("binary_stream")
             return call(readGraph, io.BytesIO(data), gtype, fmt)
         if how == "stream":
-            st = text_reader(data, name=name, plan=plan, on_fire=ctx.fault,
+            st = text_reader(data, name=sname, plan=plan, on_fire=ctx.fault,
                              newline=newline)
             return call(readGraph, st, gtype, ffmt)
         if how == "from_file":
             fs.put(name, data, plan=plan)
             return call(klass.from_file, name,
                         fmt if ld["explicit"] else None)
-        st = text_reader(data, name=name, plan=plan, on_fire=ctx.fault,
+        st = text_reader(data, name=sname, plan=plan, on_fire=ctx.fault,
                          newline=newline)
         return call(klass.from_file, st, fmt if ld["explicit"] else None)
     finally:
@@ -682,6 +686,11 @@ def _reference(data, fmt, gtype, case=None):
 _LONE_CR = re.compile(rb"\r(?!\n)")
 
 
+def _nameless(ld):
+    return ld["how"] in ("stream", "from_file_stream") and \
+        not ld["explicit"] and ld.get("stream_name") in ("int", "none")
+
+
 def _judge(data, res, ctx, fmt, gtype, where, eio=False, case=None):
     def bad(clause, detail):
         raise Violation("C14/%s/%s/%s" % (clause, fmt, gtype),
@@ -733,6 +742,10 @@ def _judge(data, res, ctx, fmt, gtype, where, eio=False, case=None):
             case["load"]["how"] == "bytes_stream":
         # binary streams are admitted, not promised: a ValueError is fine
         ctx.probe("binary stream declined")
+        return
+    if res[0] == "exc" and case is not None and _nameless(case["load"]):
+        # no file name to guess the format from: a ValueError says so
+        ctx.probe("format cannot be guessed from a stream without a name")
         return
     if res[0] == "exc" and _LONE_CR.search(data):
         # a line ended by CR alone (old Mac): a reader may decline it, it
@@ -837,6 +850,11 @@ def execute(case, ctx):
             if res[0] == "exc" and ld["how"] == "bytes_stream" and \
                     isinstance(res[1], ValueError):
                 ctx.probe("binary stream declined")
+                return
+            if res[0] == "exc" and _nameless(ld) and \
+                    isinstance(res[1], ValueError):
+                ctx.probe("format cannot be guessed from a stream without "
+                          "a name")
                 return
             if res[0] == "exc":
                 raise Violation("C14/roundtrip-load-failed/%s/%s/%s" %
